@@ -17,15 +17,21 @@
 //  * RELEASE  (`drop(g)`, passing g to `wait` / `wait_timeout` / `wait_while`, and every implicit
 //      drop of a guard: `return` / end of scope) REQUIRES `g.releasable()`, i.e.
 //      g@.lock_inv() && T::step_ok(g.acq(), g@) && g.mine() >= 0.
+//    A FINAL release (everything but the waits) REQUIRES `g.final_releasable()`: additionally
+//      g.mine() == 0 || g@.leak_ok().
 //    `drop` and the wait functions carry that `requires` themselves; implicit drops cannot
 //    (Verus attaches no obligation to a scope end), so the unit splices a ghost
-//    `assert(g.releasable())` at each of them.
+//    `assert(g.final_releasable())` at each of them.
 //  * Ticket accounting (why `counter -= 1` cannot underflow): a "guard chain" is
 //      lock -> (wait -> reacquire)* -> final release   within one thread.
 //    `g.mine()` = net amount this chain has added to `counter` so far
 //               = g.carried() + (g@.counter() - g.acq().counter()),
 //    where `carried` is 0 after `lock()` and `mine()` of the released guard after a wait.
-//    Every release requires mine() >= 0 (a chain never takes out more than it has put in).
+//    Every release requires mine() >= 0 (a chain never takes out more than it has put in); a final
+//    release requires mine() == 0 unless `leak_ok` (for the pool: shutdown has begun, which is
+//    irrevocable by `step_ok`), so that before shutdown
+//      counter == number of tickets held by chains that are suspended in a wait (or hold the lock),
+//    i.e. `available_workers` really counts workers that are waiting and have not given up.
 //    Meta-argument (not machine checked, this is the trusted part): the counter starts at 0
 //    (ThreadGroup::start_pool creates PoolRecords with available_workers: 0) and is changed only
 //    inside critical sections, so at any time the lock is free
@@ -45,6 +51,8 @@ pub mod sync_standin {
         spec fn lock_inv(&self) -> bool;
         spec fn step_ok(pre: Self, post: Self) -> bool;
         spec fn counter(&self) -> int;
+        /// states in which a finished guard chain may leave its contribution in `counter`
+        spec fn leak_ok(&self) -> bool;
         spec fn counters_below_max(&self) -> bool;
     }
 
@@ -95,9 +103,15 @@ pub mod sync_standin {
         pub open spec fn mine(&self) -> int {
             self.carried() + (self@.counter() - self.acq().counter())
         }
-        /// THE obligation at every release point.
+        /// THE obligation at every release point (this form: release by a wait, the chain goes on).
         pub open spec fn releasable(&self) -> bool {
             self@.lock_inv() && T::step_ok(self.acq(), self@) && self.mine() >= 0
+        }
+        /// The obligation at a FINAL release (drop / return / end of scope: the chain ends): in
+        /// addition the chain has taken back exactly what it put into `counter`, unless the
+        /// protected state allows a leak.
+        pub open spec fn final_releasable(&self) -> bool {
+            self.releasable() && (self.mine() == 0 || self@.leak_ok())
         }
         /// what every acquisition delivers
         pub open spec fn fresh(&self) -> bool {
@@ -164,7 +178,7 @@ pub mod sync_standin {
     /// std::mem::drop applied to a guard: an explicit release point.
     #[verifier::external_body]
     pub fn drop<'a, T: Protected>(g: MutexGuard<'a, T>)
-        requires g.releasable(),
+        requires g.final_releasable(),
     { }
 
     // ---- std::time ---------------------------------------------------------------------
